@@ -21,11 +21,11 @@ THEOREMS = ['Props.C12.' + t for t in [
     'found_column_contains', 'outside_gives_none', 'in_polygon_in_bounding_rectangle', 'contains_point_implies_near_point',
     'methods_agree', 'all_columns_hold_answer', 'plain_agrees_with_exhaustive', 'quadtree_agrees_or_none_partial',
     'quadtree_partition', 'quadtree_root', 'sub_rectangles_cover', 'sub_rectangles_inside',
-    'quadtree_leaf_contains_point', 'quadtree_leaf_exists',
+    'quadtree_leaf_contains_point', 'quadtree_leaf_exists', 'search_wave_fuel_suffices',
     'block_at_point_spec', 'block_reported_is_in_found_column', 'block_at_point_in_layer', 'block_at_point_raised_surface',
     'block_at_point_none_outside', 'block_at_point_none_above_or_below', 'reported_block_contains_point_partial',
     'containing_block_is_the_reported_one']]
-LEVEL_TEXT = ('Proof (partial): 22 Lean theorems, no sorry, about an exact-rational executable model of in_polygon / rectangles / quadtree / '
+LEVEL_TEXT = ('Proof (partial): 23 Lean theorems, no sorry, about an exact-rational executable model of in_polygon / rectangles / quadtree / '
               'column_containing_point (all search aids) / layer and block location: every reported column contains the point for every aid '
               'combination; a point outside every column gives None; in_polygon implies in-bounding-rectangle for every polygon (crossing parity, '
               'unconditional after the repair of in_polygon); under UniqueAt plain search = exhaustive search = search with any guess / bounding '
@@ -305,7 +305,7 @@ def recipes(ctx, rng):
     q = ctx.quick
     out = []
     # rectangular, sizes over three orders of magnitude
-    for k in range(ctx.n(2, 8)):
+    for k in range(ctx.n(4, 16)):
         nx, ny = rng.randint(2, 7), rng.randint(2, 7)
         dz = [float(rng.choice([1, 2, 4, 8])) for _ in range(rng.randint(2, 4))]
         r = dict(kind='rect', dx=dyadic_sizes(rng, nx), dy=dyadic_sizes(rng, ny), dz=dz, convention=rng.choice([0, 1, 2]),
@@ -315,14 +315,14 @@ def recipes(ctx, rng):
         r['steps'].append(surface_step(rng, nx * ny, dz))
         out.append(('rect-multiscale', r, False))
     # refined (triangles and transition columns)
-    for k in range(ctx.n(1, 4)):
+    for k in range(ctx.n(2, 8)):
         nx, ny = rng.randint(3, 6), rng.randint(3, 6)
         dz = [4.0, 8.0]
         sel = sorted(rng.sample(range(nx * ny), rng.randint(1, max(1, nx * ny // 3))))
         r = dict(kind='rect', dx=dyadic_sizes(rng, nx, False), dy=dyadic_sizes(rng, ny, False), dz=dz, steps=[['refine', sel]])
         out.append(('refined', r, False))
     # rotated (and translated): coordinates are arbitrary doubles
-    for k in range(ctx.n(2, 8)):
+    for k in range(ctx.n(4, 16)):
         nx, ny = rng.randint(2, 6), rng.randint(2, 6)
         ang = rng.choice([90, 180, 270, 360, -90, 30, 45, 17, 123.5, 1, 0.25])
         centre = rng.choice([None, [0., 0.], [100., 0.], [-37.5, 12.25]])
@@ -335,14 +335,18 @@ def recipes(ctx, rng):
         r = dict(kind='rect', dx=dyadic_sizes(rng, nx, rng.random() < 0.5), dy=dyadic_sizes(rng, ny, rng.random() < 0.5), dz=[2.0, 2.0, 4.0], steps=steps)
         out.append(('rotated', r, False))
     # shipped irregular geometries
-    names = SHIPPED[:] if not q else ['g7'] + rng.sample(['g5', 'g6', 'g3', 'g1'], 2)
+    names = SHIPPED[:] if not q else ['g7'] + rng.sample(['g5', 'g6', 'g3', 'g1'], 3)
     for nm in names:
         out.append(('shipped-' + nm, dict(kind='shipped', name=nm, steps=[]), False))
     if not q or rng.random() < 0.5:
         out.append(('shipped-rotated', dict(kind='shipped', name='g7', steps=[['rotate', rng.choice([90, 30, 180]), None]]), False))
+    if not q or rng.random() < 0.5:
+        out.append(('shipped-refined', dict(kind='shipped', name='g7', steps=[['refine', sorted(rng.sample(range(108), 12))]]), False))
     # domains with holes / concave outlines: outside the property's list of geometry classes; correspondence and
     # the soundness clauses only (the quadtree is not required to be complete there)
-    for k in range(ctx.n(1, 4)):
+    # two islands: the quadtree leaf of a point of one island can hold only columns of the other (search_wave cannot cross)
+    out.append(('holes-islands', dict(kind='rect', dx=[1.0, 0.25, 1.75], dy=[1.0], dz=[1.0, 1.0], steps=[['delete', [1]]]), True))
+    for k in range(ctx.n(2, 8)):
         nx, ny = rng.randint(3, 6), rng.randint(3, 5)
         dele = sorted(rng.sample(range(nx * ny), rng.randint(1, max(1, nx * ny // 3))))
         r = dict(kind='rect', dx=dyadic_sizes(rng, nx, False), dy=dyadic_sizes(rng, ny, False), dz=[4.0, 4.0], steps=[['delete', dele]])
@@ -354,9 +358,12 @@ def recipes(ctx, rng):
 CORPUS = [
     dict(what='in-polygon-tiny-edge-parity (fixed 7b69238): 3x3 grid rotated 180 deg about the origin, point 700 m left of the grid, guess = first column',
          recipe=dict(kind='rect', dx=[100.] * 3, dy=[100.] * 3, dz=[10., 10.], steps=[['rotate', 180, [0., 0.]]]),
-         points=[[-1000., -100.], [-1000., -1.2246467991473532e-14], [-225., -100.], [-50., -200.]], z=-5.0),
+         points=[[-1000., -100.00000000000001], [-1000., -100.], [-1000., -1.2246467991473532e-14], [-1000., -2.4492935982947064e-14], [500., -200.00000000000003]], z=-5.0),
     dict(what='in-polygon-tiny-edge-parity: rotate(90) about the grid centre', recipe=dict(kind='rect', dx=[100., 50., 25.], dy=[100.] * 3, dz=[10., 10.], steps=[['rotate', 90, None]]),
          points=[[-112.5, 237.5], [-112.5, 87.5], [500., 137.5]], z=-15.0),
+    dict(what='quadtree incompleteness witness (outside the listed geometry classes; correspondence only): two islands, the leaf of a point of the right island holds only the left column',
+         recipe=dict(kind='rect', dx=[1.0, 0.25, 1.75], dy=[1.0], dz=[1.0, 1.0], steps=[['delete', [1]]]), holes=True,
+         points=[[1.3125, 0.25], [1.4375, 0.375], [2.5, 0.25], [0.5, 0.75]], z=-0.5),
 ]
 
 
@@ -376,14 +383,28 @@ def gen_points(gc, rng, n):
     for _ in range(n // 3):
         x = math.floor(rng.uniform(gc.x0 - 0.15 * w, gc.x1 + 0.15 * w) / h) * h + rng.choice([0, h / 2, h / 4, h / 8, 3 * h / 8])
         y = math.floor(rng.uniform(gc.y0 - 0.15 * w, gc.y1 + 0.15 * w) / h) * h + rng.choice([0, h / 2, h / 4, h / 8, 5 * h / 8])
-        pts.append(('lattice', (x, y)))
+        pts.append(('lattice', (x, y), None))
     order = sorted(range(len(gc.cols)), key=lambda i: gc.side[i])
     picks = order[:3] + order[-2:] + [rng.randrange(len(gc.cols)) for _ in range(n // 3)]
     for i in picks:
         c = gc.cols[i]
         hs = 2.0 ** math.floor(math.log2(gc.side[i] / 16.0))
         cx, cy = float(c.centre[0]), float(c.centre[1])
-        pts.append(('centre', (math.floor(cx / hs) * hs + rng.choice([0, hs / 2, hs / 4]), math.floor(cy / hs) * hs + rng.choice([0, hs / 2, hs / 4]))))
+        pts.append(('centre', (math.floor(cx / hs) * hs + rng.choice([0, hs / 2, hs / 4]), math.floor(cy / hs) * hs + rng.choice([0, hs / 2, hs / 4])), None))
+    # close to an edge but outside the excluded zone: 8e-6 x (longest side) off an edge's midpoint, on either side
+    for _ in range(n // 6):
+        i = rng.randrange(len(gc.cols))
+        P = gc.cols[i].polygon
+        k = rng.randrange(len(P))
+        a, b = P[k], P[(k + 1) % len(P)]
+        ex, ey = float(b[0] - a[0]), float(b[1] - a[1])
+        el = math.hypot(ex, ey)
+        if el == 0:
+            continue
+        big = max([gc.side[i]] + [gc.side[gc.idx[id(c)]] for c in gc.cols[i].neighbour])
+        t = rng.choice([0.5, 0.25, 0.125])
+        sgn = rng.choice([-1, 1])
+        pts.append(('near-edge-legal', (float(a[0]) + t * ex - sgn * ey / el * 8e-6 * big, float(a[1]) + t * ey + sgn * ex / el * 8e-6 * big), None))
     # level with a vertex: same ordinate as a node, abscissa between that node and the column centre / beyond it
     for _ in range(n // 3):
         i = rng.randrange(len(gc.cols))
@@ -393,10 +414,10 @@ def gen_points(gc, rng, n):
         cx = float(c.centre[0])
         t = rng.choice([0.25, 0.5, 0.75, 1.5, -0.5, -3.0, 6.0])
         x = float(nd.pos[0]) + t * (cx - float(nd.pos[0]))
-        pts.append(('vertex-level', (x, vy)))
+        pts.append(('vertex-level', (x, vy), i))
         if rng.random() < 0.3:
-            pts.append(('vertex-level-far', (gc.x0 - w * rng.choice([0.25, 1.0, 8.0]), vy)))
-            pts.append(('vertex-level-far', (gc.x1 + w * rng.choice([0.25, 1.0]), vy)))
+            pts.append(('vertex-level-far', (gc.x0 - w * rng.choice([0.25, 1.0, 8.0]), vy), i))
+            pts.append(('vertex-level-far', (gc.x1 + w * rng.choice([0.25, 1.0]), vy), i))
     return pts
 
 
@@ -427,7 +448,7 @@ def gen_z(gc, rng, ci):
 
 # ------------------------------------------------------------------ search aids
 
-def aid_sets(gc, rng, E, pfl, extras):
+def aid_sets(gc, rng, E, pfl, extras, hint=None, all_guesses=False):
     """the search-aid combinations tried for one point; E = exact containing column index or None.
     each entry: (label, dict(columns=[idx]|None, guess=idx|None, bounds=name|None, qtree=bool), complete)
     `complete` = the property demands that E be found (the bounds contain p, the column subset contains E, ...)"""
@@ -448,6 +469,10 @@ def aid_sets(gc, rng, E, pfl, extras):
         x, y = pfl
         j = min(range(n), key=lambda i: max(gc.bb[i][0] - x, x - gc.bb[i][2], 0) + max(gc.bb[i][1] - y, y - gc.bb[i][3], 0))
         guesses.append(('nearest', j))
+    if hint is not None:
+        guesses.append(('column-level-with-point', hint))     # the column one of whose vertices has the point's ordinate
+    if all_guesses:
+        guesses += [('every-%d' % k, k) for k in range(n)]
     for lab, gi in guesses:
         out.append(('guess-' + lab, dict(guess=gi), True))
     for bname in extras['bounds']:
@@ -667,7 +692,7 @@ def vio(res, key, what, case):
     res.violations.append(dict(key=key, what=what, case=case))
 
 
-def run_geo(ctx, res, gc, rng, npoints, fixed_points=None, fixed_z=None):
+def run_geo(ctx, res, gc, rng, npoints, fixed_points=None, fixed_z=None, all_guesses=False):
     import numpy as np
     g = gc.geo
     label = gc.label
@@ -676,8 +701,12 @@ def run_geo(ctx, res, gc, rng, npoints, fixed_points=None, fixed_z=None):
     expect = [('geo', None, None)]
     scale = max(gc.x1 - gc.x0, gc.y1 - gc.y0, 1.0)
     # quadtree
-    with quiet():
-        qt = g.column_quadtree()
+    try:
+        with quiet():
+            qt = g.column_quadtree()
+    except Exception as e:       # the real constructor failed: that is behaviour of the code under test, not of the harness
+        vio(res, 'quadtree-build-raises:' + type(e).__name__, '%s: column_quadtree() raises %s' % (label, type(e).__name__), dict(kind='qtree', recipe=gc.recipe))
+        return
     real_dump = dump_real_qtree(gc, qt)
     for pr in oracle_qtree(gc, real_dump):
         vio(res, 'quadtree-partition', '%s: %s' % (label, pr), dict(kind='qtree', recipe=gc.recipe))
@@ -685,9 +714,8 @@ def run_geo(ctx, res, gc, rng, npoints, fixed_points=None, fixed_z=None):
     lines.append('qt - %s %s' % (ep(FP(b[0])), ep(FP(b[1]))))
     expect.append(('qt', real_dump, None))
     extras = make_extras(gc, rng)
-    pts = [('corpus', tuple(p)) for p in (fixed_points or [])] + (gen_points(gc, rng, npoints) if npoints else [])
-    recs = []
-    for kind, p in pts:
+    pts = [('corpus', tuple(p), None) for p in (fixed_points or [])] + (gen_points(gc, rng, npoints) if npoints else [])
+    for kind, p, hint in pts:
         status, inside = gc.locate_exact(p)
         res.evaluations += 1
         if status == 'edge':
@@ -723,7 +751,7 @@ def run_geo(ctx, res, gc, rng, npoints, fixed_points=None, fixed_z=None):
         elif rl is None and inbox:
             vio(res, 'quadtree-leaf-none', '%s: leaf(%r) is None for a point in the root bounds' % (label, p), dict(kind='point', recipe=gc.recipe, p=list(p)))
         # every search-aid combination
-        for alabel, aid, complete in aid_sets(gc, rng, E, p, extras):
+        for alabel, aid, complete in aid_sets(gc, rng, E, p, extras, hint, all_guesses):
             r = call_ccp(gc, p, aid, extras, qt)
             akind = '+'.join(sorted(k for k in aid))
             res.count('aids:%s' % (akind or 'none'))
@@ -735,10 +763,10 @@ def run_geo(ctx, res, gc, rng, npoints, fixed_points=None, fixed_z=None):
                     vio(res, 'ccp-outside-found', '%s: point %r lies in no column but %s search returns column %r' % (label, p, alabel, gc.cols[r].name if r >= 0 else r), case)
                 else:
                     vio(res, 'ccp-wrong-column', '%s: point %r is in column %r but %s search returns %r' % (label, p, gc.cols[E].name, alabel, gc.cols[r].name if r >= 0 else r), case)
+            elif r is None and E is not None and aid.get('qtree') and gc.holes:
+                res.count('quadtree-search-misses-column(domain with holes: outside the listed geometry classes)')
             elif r is None and E is not None and complete is True:
-                if aid.get('qtree') and gc.holes:
-                    res.count('qtree-miss-in-holed-domain')
-                else:
+                if True:
                     vio(res, 'ccp-missed:' + akind, '%s: point %r is in column %r but %s search returns None' % (label, p, gc.cols[E].name, alabel), case)
             elif complete is None:
                 res.count('bounds-polygon-undecided')
@@ -1259,14 +1287,14 @@ def run(ctx, scale=1.0, only_oracle=False):
     rng = ctx.rng('locate')
     # fixed corpus first
     for c in CORPUS:
-        gc = GeoCase('corpus', build_geo(c['recipe']), c['recipe'])
-        run_geo(ctx, res, gc, ctx.rng('corpus'), 0, fixed_points=c['points'], fixed_z=c['z'])
+        gc = GeoCase('corpus', build_geo(c['recipe']), c['recipe'], c.get('holes', False))
+        run_geo(ctx, res, gc, ctx.rng('corpus'), 0, fixed_points=c['points'], fixed_z=c['z'], all_guesses=True)
     for c in TRACK_CORPUS:
         gc = GeoCase('corpus', build_geo(c['recipe']), c['recipe'])
         run_tracks(ctx, res, gc, ctx.rng('corpus'), 0, fixed_lines=c['lines'])
-    run_geom_fns(ctx, res, ctx.rng('geom_fns'), int(ctx.n(400, 6000) * scale))
-    npts = int(ctx.n(36, 150) * scale)
-    nlines = int(ctx.n(30, 150) * scale)
+    run_geom_fns(ctx, res, ctx.rng('geom_fns'), int(ctx.n(800, 12000) * scale))
+    npts = int(ctx.n(60, 200) * scale)
+    nlines = int(ctx.n(50, 250) * scale)
     for label, recipe, holes in recipes(ctx, rng):
         gc = GeoCase(label, build_geo(recipe), recipe, holes)
         big = len(gc.cols) > 600
@@ -1306,8 +1334,11 @@ def replay(ctx, payload):
     if kind in ('point', 'block', 'qtree'):
         gc = GeoCase('replay', build_geo(c['recipe']), c['recipe'])
         if kind == 'qtree':
-            with quiet():
-                qt = gc.geo.column_quadtree()
+            try:
+                with quiet():
+                    qt = gc.geo.column_quadtree()
+            except Exception as e:
+                return True, 'column_quadtree() raises %s' % type(e).__name__
             probs = oracle_qtree(gc, dump_real_qtree(gc, qt))
             return bool(probs), 'quadtree of %s: %s' % (c['recipe'], probs or 'partition clauses hold')
         p = tuple(c['p'])
